@@ -3,7 +3,7 @@
    are arbitrary functions in the port theorems (so they hold for the real parser/evaluator, whatever they do); the only
    fact about texts that is used — a canonical text parses back to itself — is a premise of [wf_port] and is discharged for
    the C03 parser/printer by [C07_canonical_texts_are_fixpoints] (from C03's print_parse_fixpoint). *)
-From QT Require Import C07.SaveLoad C07.SaveLoadThm C07.RoundTripThm C07.HubThm C07.Run C07.CanonThm.
+From QT Require Import C07.SaveLoad C07.SaveLoadThm C07.RoundTripThm C07.HubThm C07.OwnerThm C07.Run C07.CanonThm.
 Open Scope string_scope.
 Open Scope list_scope.
 
@@ -80,6 +80,18 @@ Theorem C07_slave_roundtrip : forall s, wf_slave s -> slave_load (slave_save s) 
 Proof. exact slave_roundtrip. Qed.
 Print Assumptions C07_slave_roundtrip.
 
+(* persisted slave ports (a permanently offline slave has its ports from the store only): after a restart the slave named n has
+   exactly the ports whose record id is n + "." + remote id — whatever the remote id is, dots included — and no other slave
+   with a dot-free name (device names cannot contain dots) claims such a record *)
+Theorem C07_slave_ports_reloaded_exactly : forall n stored r, In r (load_ports n stored) <-> In (slave_port_id n r) stored.
+Proof. exact load_ports_exact. Qed.
+Print Assumptions C07_slave_ports_reloaded_exactly.
+
+Theorem C07_slave_port_owner_unique : forall m n r,
+  dot_free m = true -> dot_free n = true -> owns m (slave_port_id n r) = true -> m = n.
+Proof. exact owner_unique. Qed.
+Print Assumptions C07_slave_port_owner_unique.
+
 (* the premise of wf_port about texts, for the real grammar: what the hub reports for an accepted text parses back to itself *)
 Theorem C07_canonical_texts_are_fixpoints : forall s t, canon_run s = Some t -> canon_run t = Some t.
 Proof. exact canon_run_stable. Qed.
@@ -96,7 +108,8 @@ Example C07_nonvacuous :
            p_value := JQ 14; p_hlt := 1700000001000; p_writable := true; p_boolean := false; p_integer := false |}, [JQ 28])
   /\ view (fst (load_from_data canon_run eval_tw_run (fresh ex_port) (prepare_for_save ex_port))) = view ex_port
   /\ h_live (restart (run ["h1"] [OAddVirtualPort "v1"; OAddVirtualPort "v2"; OSetAttr "v1"; ORemovePort "v2"; OWriteValue "v1"; OSaveAll]))
-     = ["h1"; "v1"].
+     = ["h1"; "v1"]
+  /\ load_ports "s1" ["s1.p1"; "s1.floor1.lamp"; "s10.p1"; "s2.s1.p1"] = ["p1"; "floor1.lamp"].
 Proof. vm_compute. repeat split. Qed.
 
 Example C07_wf_nonvacuous : wf_port canon_run ex_port.
